@@ -86,7 +86,7 @@ def run(tier):
     chan = json.loads(out)
     for c in chan:
         if not c["returned"]:
-            verd.candidate("C11:blocking:%s:does-not-return" % c["op"], "script blocked in %s did not return within 4 s after the context was cancelled" % c["op"], c)
+            verd.candidate("C11:blocking:%s:does-not-return" % c["op"], "script blocked in %s did not return within 15 s after the context was cancelled" % c["op"], c)
         elif "context canceled" not in c.get("err", ""):
             verd.candidate("C11:blocking:%s:no-reason" % c["op"], "script blocked in %s returned %r, not an error carrying the context's reason" % (c["op"], c.get("err")), c)
     vlib.log("[C11] blocking ops under cancellation: %s" % ", ".join("%s=%s" % (c["op"], "returned" if c["returned"] else "HANG") for c in chan))
